@@ -626,6 +626,38 @@ Theorem set_loc_in_table : forall dbg c aa fd enc o v rest ind a,
        :: dec_g (parse_insn_sl dbg c aa fd) {| CfiRun.it_off := o + 1 + nlen ev; CfiRun.it_bytes := rest |}.
 Proof. exact set_loc_in_table_lem. Qed.
 
+(* unwind_info_row_of_unlimited_table for the extension: against the DWARF machine WITHOUT storage limits on the
+   items the FDE's iterator yields (spec_unl_sl), when its occupancy fits the storage (within_limits_sl) *)
+Theorem unwind_info_row_of_unlimited_table_any_encoding : forall dbg cp c aa sec cx a items fds fd,
+  asz_ok (sc_asz c) -> CfiRun.cap_full (CfaSpec.max_stack cp) 0 = false ->
+  entries_all dbg c sec = Ok (items, None) ->
+  parsed_fdes dbg c sec items = Some fds ->
+  find (fun f => covers f a) fds = Some fd ->
+  within_limits_sl dbg cp c aa fd = true ->
+  uwi_result_spec a (fst (spec_unl_sl dbg c aa fd)) (snd (spec_unl_sl dbg c aa fd))
+                  (fst (unwind_info_for_address_sl dbg cp c aa sec cx a)).
+Proof. exact uwi_sl_spec_unl_lem. Qed.
+
+(* unwind_info_succeeds_iff_covered for the extension: success (with a row containing a) iff some FDE covers a,
+   provided the table of the first covering FDE — evaluated through its encoded set_loc operands — reaches its end *)
+Theorem unwind_info_succeeds_iff_covered_any_encoding : forall dbg cp c aa sec cx a items fds,
+  asz_ok (sc_asz c) ->
+  entries_all dbg c sec = Ok (items, None) ->
+  parsed_fdes dbg c sec items = Some fds ->
+  (forall fd, find (fun f => covers f a) fds = Some fd ->
+              snd (fst (fde_rows_sl dbg cp c aa fd cx)) = CfaSpec.Done) ->
+  ((exists r, fst (unwind_info_for_address_sl dbg cp c aa sec cx a) = Ok r /\ CfiRun.row_contains r a = true)
+   <-> exists fd, In fd fds /\ covers fd a = true).
+Proof. exact uwi_sl_succeeds_iff_lem. Qed.
+
+(* unwind_info_total for the extension: no panic and the stated fuel suffices, every byte string, both build modes,
+   every encoding byte the CIE may carry *)
+Theorem unwind_info_total_any_encoding : forall dbg cp c aa sec cx a,
+  asz_ok (sc_asz c) -> CfiRun.cap_full (CfaSpec.max_stack cp) 0 = false ->
+  fst (unwind_info_for_address_sl dbg cp c aa sec cx a) <> Panic /\
+  fst (unwind_info_for_address_sl dbg cp c aa sec cx a) <> OutOfFuel.
+Proof. exact uwi_sl_total_lem. Qed.
+
 (* the section of set_loc_instance: one FDE [4377, 4441) whose only instruction is set_loc(pcrel|sdata4 -> 4643).
    gimli (and the extension) deliver the row [4377, 4643); the restricted model of section 8 reads a plain 8-byte
    address from the 4-byte operand and reports UnexpectedEof — and because that failed decode leaves no SetLoc item,
@@ -708,6 +740,7 @@ Check table_through_set_loc_refines. Check unwind_info_is_lookup_then_table_any_
 Check unwind_info_row_of_spec_table_any_encoding. Check hdr_unwind_info_uses_designated_fde_any_encoding.
 Check unwind_info_paths_agree_any_encoding. Check set_loc_extension_agrees_without_encoding. Check unwind_info_extension_agrees.
 Check set_loc_free_same_items. Check set_loc_in_table.
+Check unwind_info_row_of_unlimited_table_any_encoding. Check unwind_info_succeeds_iff_covered_any_encoding. Check unwind_info_total_any_encoding.
 Check eh_pe_valid_all : forall e, e < 256 -> pe_is_valid e = valid_spec e.
 Check linear_lookup_is_scan : forall dbg c sec a items e,
   entries_all dbg c sec = Ok (items, e) -> fde_for_address dbg c sec a = scan_items dbg c sec a items e.
